@@ -834,7 +834,9 @@ func (d *DotGit) ObjectsWithPrefix(prefix []byte) ([]plumbing.Hash, error) {
 	// Handle edge cases.
 	if len(prefix) < 1 {
 		return d.Objects()
-	} else if len(prefix) > plumbing.ZeroHash.Size() {
+	} else if len(prefix) > d.options.ObjectFormat.Size() {
+		// The zero ObjectID always reports the SHA-1 size; the limit is
+		// the hash size of this repository.
 		return nil, nil
 	}
 
